@@ -58,6 +58,9 @@ def run(tier, seed, replay=None):
                     continue
             ck.fail(sig, msg, {"input": case, "intents": intents, "inject": inj, "probe_start": ps, "key": [str(x) for x in key],
                                "impl_event": ob[i] if i < len(ob) else None})
+    # "in any association or session state": a state reached by more requests than any queue inside the agent holds
+    # (end-marker queue 1024, heartbeat reset queue 100). The requests are valid; the last events are probes.
+    run_soak(ck, binary, rng, lambda c, it, ob: l1.mon_c01(c, it, ob), dist)
     # the model takes the datagram as go-pfcp decodes it, so it is evaluated on mutated and garbage datagrams alike
     sub = list(zip([c[1] for c in cases], obs))
     rng.shuffle(sub)
